@@ -145,23 +145,27 @@ def outOf (r : Except Err Series) : Out :=
   | .ok s => .series s
   | .error e => .err e
 
+/-- validation of an optional horizon argument (`check_fh` inside `_set_fh`) -/
+def fhObjOf : Option FhArg → Except Err (Option FH.FH)
+  | none => .ok none
+  | some a => (checkFhArg a).map some
+
+/-- `self._predict(self.fh)` at the current cutoff -/
+def predictStored (core : Core) (s : FState) : FState × Out :=
+  match s.fh, s.cutoff with
+  | some f, some c => (s, outOf (predictAt core s c f))
+  | _, _ => (s, .err .value)
+
 /-- `predict(fh)` -/
 def predict (core : Core) (mode : FhMode) (s : FState) (fh : Option FhArg) : FState × Out :=
   if !s.fitted then (s, .err .notFitted)
   else
-    let fhObj : Except Err (Option FH.FH) := match fh with
-      | none => .ok none
-      | some a => (checkFhArg a).map some
-    match fhObj with
+    match fhObjOf fh with
     | .error e => (s, .err e)
     | .ok fo =>
       match setFh mode s fo with
       | .error e => (s, .err e)
-      | .ok fh' =>
-        let s1 := { s with fh := fh' }
-        match fh', s1.cutoff with
-        | some f, some c => (s1, outOf (predictAt core s1 c f))
-        | _, _ => (s1, .err .value)
+      | .ok fh' => predictStored core { s with fh := fh' }
 
 /-- `update(y, update_params)` -/
 def update (core : Core) (mode : FhMode) (s : FState) (y : Series) (updateParams : Bool) : FState × Out :=
@@ -183,7 +187,7 @@ def formatMoving (preds : List Series) (cutoffs : List Int) : Out :=
   | p0 :: _ =>
     if p0.length = 1 then .series (preds.foldl (· ++ ·) [])
     else
-      let labels := sortInts ((preds.foldl (fun acc p => acc ++ p.labels) []).eraseDups)
+      let labels := sortInts (dedupInts (preds.foldl (fun acc p => acc ++ p.labels) []))
       match preds with
       | [p] => .series (labels.map (fun l => (l, (Series.lookup p l).getD none)))
       | _ => .frame cutoffs (labels.map (fun l => (l, preds.map (fun p => (Series.lookup p l).getD none))))
@@ -227,54 +231,59 @@ structure CvSpec where
   sww : Bool
   deriving Repr
 
+/-- the splitter `update_predict` uses: the given one, or the default
+`SlidingWindowSplitter(self.fh.to_relative(self.cutoff), window_length_, start_with_window=False)` -/
+def cvSpecOf (s : FState) (cv : Option CvSpec) : Except Err CvSpec :=
+  match cv with
+  | some c => .ok c
+  | none =>
+    match s.fh, s.cutoff with
+    | some f, some c => .ok ⟨.sliding, if f.rel then f.vals else f.vals.map (· - c), s.wlen, 1, none, false⟩
+    | none, _ => .error .value
+    | some f, none => if f.rel then .ok ⟨.sliding, f.vals, s.wlen, 1, none, false⟩ else .error .value
+
+def updatePredictWith (core : Core) (mode : FhMode) (s : FState) (y : Series) (c : CvSpec)
+    (updateParams : Bool) : FState × Out :=
+  -- `fh = cv.get_fh()` comes first and validates the splitter's horizon
+  match Split.checkFh c.fh with
+  | .error e => (s, .err (ofSplitErr e))
+  | .ok fhv =>
+    match y.head? with
+    | none => (s, .err .index)
+    | some _ =>
+      match Split.windowSplit c.kind y.length c.fh c.wl c.step c.iw c.sww with
+      | .error e => (s, .err (ofSplitErr e))
+      | .ok folds => movingCutoff core mode s y (folds.map (·.1)) ⟨fhv, true⟩ updateParams
+
 /-- `update_predict(y, cv, update_params)` of `_BaseWindowForecaster` -/
 def updatePredict (core : Core) (mode : FhMode) (s : FState) (y : Series) (cv : Option CvSpec)
     (updateParams : Bool) : FState × Out :=
-  let spec : Except Err CvSpec := match cv with
-    | some c => .ok c
-    | none =>
-      match s.fh, s.cutoff with
-      | some f, some c => .ok ⟨.sliding, if f.rel then f.vals else f.vals.map (· - c), s.wlen, 1, none, false⟩
-      | none, _ => .error .value
-      | some f, none => if f.rel then .ok ⟨.sliding, f.vals, s.wlen, 1, none, false⟩ else .error .value
-  match spec with
+  match cvSpecOf s cv with
   | .error e => (s, .err e)
-  | .ok c =>
-    -- `fh = cv.get_fh()` comes first and validates the splitter's horizon
-    match Split.checkFh c.fh with
-    | .error e => (s, .err (ofSplitErr e))
-    | .ok fhv =>
-      match y.head? with
-      | none => (s, .err .index)
-      | some _ =>
-        match Split.windowSplit c.kind y.length c.fh c.wl c.step c.iw c.sww with
-        | .error e => (s, .err (ofSplitErr e))
-        | .ok folds => movingCutoff core mode s y (folds.map (·.1)) ⟨fhv, true⟩ updateParams
+  | .ok c => updatePredictWith core mode s y c updateParams
+
+/-- `_update_predict_single(y, fh, update_params)`: update, then `_predict(fh)` -/
+def updateThenPredict (core : Core) (mode : FhMode) (s : FState) (y : Series) (f : FH.FH)
+    (updateParams : Bool) : FState × Out :=
+  match update core mode s y updateParams with
+  | (s2, .err e) => (s2, .err e)
+  | (s2, _) =>
+    match s2.cutoff with
+    | none => (s2, .err .value)
+    | some c => (s2, outOf (predictAt core s2 c f))
 
 /-- `update_predict_single(y_new, fh, update_params)` -/
 def updatePredictSingle (core : Core) (mode : FhMode) (s : FState) (y : Series) (fh : Option FhArg)
     (updateParams : Bool) : FState × Out :=
   if !s.fitted then (s, .err .notFitted)
   else
-    let fhObj : Except Err (Option FH.FH) := match fh with
-      | none => .ok none
-      | some a => (checkFhArg a).map some
-    match fhObj with
+    match fhObjOf fh with
     | .error e => (s, .err e)
     | .ok fo =>
       match setFh mode s fo with
       | .error e => (s, .err e)
-      | .ok fh' =>
-        let s1 := { s with fh := fh' }
-        match fh' with
-        | none => (s1, .err .value)
-        | some f =>
-          match update core mode s1 y updateParams with
-          | (s2, .err e) => (s2, .err e)
-          | (s2, _) =>
-            match s2.cutoff with
-            | none => (s2, .err .value)
-            | some c => (s2, outOf (predictAt core s2 c f))
+      | .ok none => ({ s with fh := none }, .err .value)
+      | .ok (some f) => updateThenPredict core mode { s with fh := some f } y f updateParams
 
 inductive Op
   | fit (y : Series) (fh : Option FhArg)
